@@ -89,11 +89,11 @@ pub fn run_prompt(args: Vec<String>) {
                     }
                 };
 
-                let mut compiler = Compiler::new_with_state(symtab, constants);
+                // Compile with a copy of the state, so that a line that fails
+                // to compile leaves no partial definitions or scopes behind
+                let mut compiler = Compiler::new_with_state(symtab.clone(), constants.clone());
                 if let Err(e) = compiler.compile(program) {
                     eprintln!("{}", e);
-                    symtab = compiler.symtab;
-                    constants = compiler.constants;
                     continue;
                 }
                 let bytecode = compiler.bytecode();
